@@ -13,8 +13,16 @@ not compile -> every property whose cone contains the bridge reports the obligat
 
 Modelling assumptions the translator makes are printed into the generated file (section `assumptions`)."""
 import ast
+import re
 
-from gen_kernels import KernelError, find_class, find_func
+import pynorm
+from gen_kernels import KernelError, find_class
+from gen_kernels import find_func as find_func_raw
+
+
+def find_func(node, name):
+    """the method, normalised (harness/pynorm.py: python-level identities that reduce the number of source shapes)"""
+    return pynorm.normalize(find_func_raw(node, name))
 
 
 def cq(s):
@@ -237,6 +245,8 @@ class NodeTr:
             return term
         if ty == "md":
             return "(truthy_md %s)" % term
+        if ty == "nat":
+            return "(negb (%s =? 0))" % term
         if ty == "optnat":
             return "(truthy_optnat %s)" % term
         if ty == ("list", "bool"):
@@ -247,8 +257,67 @@ class NodeTr:
             return "(truthy_optmd %s)" % term
         self.err("truthiness of a %s" % (ty,), node)
 
+    # ---- tests already decided on the current path ------------------------------------------------------------------
+    # Inside the branches of `if c:` the value of the Coq term c is known.  Terms are over bound variables (every read of
+    # the state binds a fresh one) and `let`-bound locals, so a fact stays true as long as no local in it is rebound
+    # (drop_facts).  A later test that is the same term is then a constant: `if a and b: P elif a: Q` with b constant
+    # True makes Q dead code exactly as the nested form `if a: if b: P else: Q` does.
+    def with_fact(self, env, c, value):
+        if c in ("true", "false"):
+            return env
+        env = dict(env)
+        facts = dict(env.get("?facts", ({}, "facts"))[0])
+        while c.startswith("(negb ") and c.endswith(")"):
+            c, value = c[6:-1], not value
+        facts[c] = value
+        env["?facts"] = (facts, "facts")
+        return env
+
+    def drop_facts(self, env, name):
+        if "?facts" in env:
+            pat = re.compile(r"(?<![A-Za-z0-9_'])%s(?![A-Za-z0-9_'])" % re.escape(name))
+            env["?facts"] = ({c: v for c, v in env["?facts"][0].items() if not pat.search(c)}, "facts")
+
     def cond(self, e, env, binds):
-        """expression in boolean context -> coq bool term"""
+        """expression in boolean context -> coq bool term (a constant when the path has decided it)"""
+        c = self.cond0(e, env, binds)
+        facts = env.get("?facts", ({}, "facts"))[0]
+        neg, core = False, c
+        while core.startswith("(negb ") and core.endswith(")"):
+            neg, core = not neg, core[6:-1]
+        if core in facts:
+            return "true" if facts[core] != neg else "false"
+        return c
+
+    def len_test(self, e):
+        """`len(c) != 0`, `len(c) > 0`, `0 < len(c)`, `len(c) >= 1` ... -> (c, True); `len(c) == 0`, `len(c) < 1` ... -> (c, False):
+        for the sized containers the translator knows (list, deque, dict, set) this IS the truth value of c"""
+        if not (isinstance(e, ast.Compare) and len(e.ops) == 1):
+            return None
+        a, op, b = e.left, e.ops[0], e.comparators[0]
+        mirror = {ast.Lt: ast.Gt, ast.Gt: ast.Lt, ast.LtE: ast.GtE, ast.GtE: ast.LtE, ast.Eq: ast.Eq, ast.NotEq: ast.NotEq}
+        if type(op) not in mirror:
+            return None
+        kind = type(op)
+        if isinstance(a, ast.Constant):
+            a, b, kind = b, a, mirror[kind]
+        if not (isinstance(a, ast.Call) and isinstance(a.func, ast.Name) and a.func.id == "len" and len(a.args) == 1
+                and not a.keywords and isinstance(b, ast.Constant) and type(b.value) is int):
+            return None
+        table = {(ast.NotEq, 0): True, (ast.Gt, 0): True, (ast.GtE, 1): True,
+                 (ast.Eq, 0): False, (ast.LtE, 0): False, (ast.Lt, 1): False}
+        if (kind, b.value) not in table:
+            return None
+        return a.args[0], table[(kind, b.value)]
+
+    def cond0(self, e, env, binds):
+        lt = self.len_test(e)
+        if lt is not None:
+            t, ty = self.ex(lt[0], env, binds)
+            if ty == "md" or isinstance(ty, tuple) and ty[0] in ("list", "dict"):
+                c = self.truthy(t, ty, e)
+                return c if lt[1] else "(negb %s)" % c
+            self.err("len() of a %s" % (ty,), e)
         if isinstance(e, ast.BoolOp):
             op = "&&" if isinstance(e.op, ast.And) else "||"
             parts = []
@@ -341,15 +410,15 @@ class NodeTr:
                 self.err("== between %s and %s" % (tya, tyb), e)
             return (("(negb %s)" % r) if isinstance(op, ast.NotEq) else r, "bool")
         if isinstance(op, (ast.Lt, ast.LtE, ast.Gt, ast.GtE)):
-            ta, tya = self.ex(a, env, binds)
+            ta, tya = self.ex(a, env, binds)             # operands are evaluated left to right as written ...
             tb, tyb = self.ex(b, env, binds)
+            if isinstance(op, (ast.Gt, ast.GtE)):        # ... a > b is then read as b < a, a >= b as b <= a
+                ta, tya, tb, tyb = tb, tyb, ta, tya
+            strict = isinstance(op, (ast.Lt, ast.Gt))
             if tya == "nat" and tyb == "nat":
-                r = {ast.Lt: "(%s <? %s)", ast.LtE: "(%s <=? %s)", ast.Gt: "(%s <? %s)", ast.GtE: "(%s <=? %s)"}[type(op)]
-                if isinstance(op, (ast.Gt, ast.GtE)):
-                    ta, tb = tb, ta
-                return (r % (ta, tb), "bool")
-            if tya == "nat" and tyb == "optnat" and isinstance(op, ast.GtE):
-                return ("(optnat_le %s %s)" % (tb, ta), "bool")
+                return (("(%s <? %s)" if strict else "(%s <=? %s)") % (ta, tb), "bool")
+            if tya == "optnat" and tyb == "nat" and not strict:      # end <= state where end may be None (guarded)
+                return ("(optnat_le %s %s)" % (ta, tb), "bool")
             self.err("order comparison between %s and %s" % (tya, tyb), e)
         if isinstance(op, (ast.In, ast.NotIn)):
             r = self.membership(a, b, env, binds, e)
@@ -396,6 +465,39 @@ class NodeTr:
         if isinstance(tyv, tuple) and tyv[0] == "list" and tyi == "nat":
             return (self.bind(binds, "lift (nth_error %s %s)" % (tv, ti), True), tyv[1])
         self.err("subscript %s (%s[%s])" % (ast.unparse(e), tyv, tyi), e)
+
+    def join_ty(self, a, b, node):
+        """the type of a value that is an <a> on one path and a <b> on the other"""
+        if a == b:
+            return a
+        for p, q in ((a, b), (b, a)):
+            if p == "nil" and (q == "md" or isinstance(q, tuple) and q[0] in ("list", "dict")):
+                return q
+        self.err("a %s on one path and a %s on the other" % (a, b), node)
+
+    def mterm(self, binds, term):
+        """a list of steps and a result as one monadic term"""
+        return "(" + " ".join("do %s <- %s ;;" % ("_" if b.var.startswith("u") else b.var, b.term) for b in binds) \
+            + (" " if binds else "") + "ret %s)" % term
+
+    def ex_IfExp(self, e, env, binds):
+        """a if c else b: the test first, then ONLY the chosen arm (an arm with a step becomes an `if` at the monad level)"""
+        c = self.cond(e.test, env, binds)
+        if c in ("true", "false"):
+            return self.ex(e.body if c == "true" else e.orelse, self.narrow(e.test, env, c == "true"), binds)
+        b1, b2 = [], []
+        t1, ty1 = self.ex(e.body, self.with_fact(self.narrow(e.test, env, True), c, True), b1)
+        t2, ty2 = self.ex(e.orelse, self.with_fact(self.narrow(e.test, env, False), c, False), b2)
+        ty = self.join_ty(ty1, ty2, e)
+        if isinstance(ty, tuple) and ty[0] in ("alias", "iter"):
+            self.err("conditional expression over a %s" % (ty,), e)
+        if not b1 and not b2:
+            if t1 == t2:
+                return (t1, ty)
+            return ("(if %s then %s else %s)" % (c, t1, t2), ty)
+        v = self.bind(binds, "(if %s then %s else %s)" % (c, self.mterm(b1, t1), self.mterm(b2, t2)),
+                      any(b.effect for b in b1 + b2))
+        return (v, ty)
 
     def ex_ListComp(self, e, env, binds):
         gens = e.generators
@@ -452,6 +554,8 @@ class NodeTr:
                 return self.isinstance_(e, env, binds)
             if f.id == "len" and len(e.args) == 1 and not e.keywords:
                 t, ty = self.ex(e.args[0], env, binds)
+                if ty == ("list", "bool"):
+                    self.err("len of a set that the model keeps as one flag per upstream (only its truth value is known)", e)
                 if isinstance(ty, tuple) and ty[0] in ("list", "dict") or ty == "md":
                     return ("(length %s)" % t, "nat")
                 self.err("len of a %s" % (ty,), e)
@@ -537,6 +641,18 @@ class NodeTr:
         if isinstance(f.value, ast.Name) and f.value.id in env and isinstance(env[f.value.id][1], tuple) \
                 and env[f.value.id][1][0] == "alias":
             return self.alias_call(env[f.value.id], f.attr, e.args, env, binds, e)
+        # self.<dict of containers>[k].<method>(..): the same as through a local that names the entry
+        if isinstance(f.value, ast.Subscript) and self.self_attr(f.value.value) is not None \
+                and (self.self_attr(f.value.value), "alias") in self.sc.get("ops", {}) and not e.keywords:
+            owner = self.self_attr(f.value.value)
+            op = self.sc["ops"][(owner, "alias")]
+            tk, tyk = self.ex(f.value.slice, env, binds)
+            if [tyk] != op.args:
+                self.err("key of self.%s is a %s" % (owner, tyk), e)
+            if (owner, "touch") in self.sc["ops"]:          # defaultdict: reading a missing key creates the entry
+                self.stateful = True
+                self.bind(binds, "wr (%s %s)" % (self.opname(owner, "touch"), tk), True, "u")
+            return self.alias_call(((owner, tk), ("alias", op.ret)), f.attr, e.args, env, binds, e)
         self.err("call %s" % ast.unparse(e), e)
 
     def isinstance_(self, e, env, binds):
@@ -832,8 +948,10 @@ class NodeTr:
             var = self.local(s.target.id)
             benv = dict(env)
             benv[s.target.id] = (var, elem)
+            self.drop_facts(benv, var)
             for n in carried:
                 benv[n] = (self.local(n), env[n][1])
+                self.drop_facts(benv, self.local(n))
             tys = {n: env[n][1] for n in carried}
 
             def tail(e, carried=carried, tys=tys):
@@ -855,6 +973,7 @@ class NodeTr:
                 out.append("%slet %s%s := %s in" % (ind, "'" if len(carried) > 1 else "", pat, st))
             for n in carried:
                 env[n] = (self.local(n), tys[n])
+                self.drop_facts(env, self.local(n))
             env[s.iter.id] = ("[]", ity)
             for n in assigned:
                 if n not in carried and n != s.target.id and n in env and env[n][1] not in ("aw", "nil", "unit"):
@@ -866,7 +985,9 @@ class NodeTr:
         """while self.<container>: body   -- fuel: one more than the length of the container at entry"""
         if s.orelse:
             self.err("while ... else", s)
-        name = self.self_attr(s.test)
+        lt = self.len_test(s.test)
+        subject = lt[0] if lt is not None and lt[1] else s.test       # `while len(self.<c>) > 0` is `while self.<c>`
+        name = self.self_attr(subject)
         if name is None or self.attr(name, s).kind != "field" or not isinstance(self.attr(name, s).ty, tuple):
             self.err("while loop on %s: only `while self.<container>` is supported" % ast.unparse(s.test), s)
         out = [self.src(s, ind)]
@@ -903,14 +1024,18 @@ class NodeTr:
                     out += self.assign_to(t1, term, ty, env, ind, s)
                 return out + self.go(rest, env, ind)
             term, ty = self.ex(s.value, env, binds)
-            if len(tgt.elts) == 2 and all(isinstance(t1, ast.Name) for t1 in tgt.elts) and ty == "val":
+            if len(tgt.elts) == 2 and ty == "val":
+                # a, b = v: v is unpacked (or raises) BEFORE any target is assigned; then the targets left to right
                 p = self.bind(binds, "lift (unpack2 %s)" % term, True, "p")
                 out += self.emit_binds(binds, ind)
-                a, b = tgt.elts[0].id, tgt.elts[1].id
-                ca, cb = self.local(a), self.local(b)
-                out.append("%slet '(%s, %s) := %s in" % (ind, ca, cb, p))
-                env[a] = (ca, "val")
-                env[b] = (cb, "val")
+                names = [self.local(t1.id) if isinstance(t1, ast.Name) else self.fresh("t") for t1 in tgt.elts]
+                if names[0] == names[1]:
+                    names[0] = self.fresh("t")
+                out.append("%slet '(%s, %s) := %s in" % (ind, names[0], names[1], p))
+                for c1 in names:
+                    self.drop_facts(env, c1)
+                for t1, c1 in zip(tgt.elts, names):
+                    out += self.assign_to(t1, c1, "val", env, ind, s)
                 return out + self.go(rest, env, ind)
             if len(tgt.elts) == 2 and isinstance(ty, tuple) and ty[0] == "pair":
                 out += self.emit_binds(binds, ind)
@@ -961,6 +1086,7 @@ class NodeTr:
                 env[tgt.id] = (term, ty)
                 return []
             env[tgt.id] = (c, ty)
+            self.drop_facts(env, c)
             return ["%slet %s := %s in" % (ind, c, term)]
         name = self.self_attr(tgt)
         if name is not None:
@@ -1061,11 +1187,11 @@ class NodeTr:
             lines, env2 = seq
             return out + lines + self.go(rest, env2, ind)
         out.append("%sif %s then (" % (ind, c))
-        out += self.go(list(s.body) + rest, self.narrow(s.test, env, True), ind + "  ")
+        out += self.go(list(s.body) + rest, self.with_fact(self.narrow(s.test, env, True), c, True), ind + "  ")
         out.append("%s) else (" % ind)
         if s.orelse:
             out.append("%s  (* else: *)" % ind)
-        out += self.go(list(s.orelse) + rest, self.narrow(s.test, env, False), ind + "  ")
+        out += self.go(list(s.orelse) + rest, self.with_fact(self.narrow(s.test, env, False), c, False), ind + "  ")
         out.append("%s)" % ind)
         return out
 
@@ -1081,8 +1207,8 @@ class NodeTr:
             return "ret tt"
         self.tails.append(tail)
         try:
-            b1 = self.go(list(s.body), self.narrow(s.test, env, True), ind + "    ")
-            b2 = self.go(list(s.orelse), self.narrow(s.test, env, False), ind + "    ")
+            b1 = self.go(list(s.body), self.with_fact(self.narrow(s.test, env, True), c, True), ind + "    ")
+            b2 = self.go(list(s.orelse), self.with_fact(self.narrow(s.test, env, False), c, False), ind + "    ")
         finally:
             self.tails.pop()
         env2 = dict(env)
@@ -1092,7 +1218,7 @@ class NodeTr:
                 if n in e and e[n][1] not in ("aw", "nil", "unit"):
                     return None              # a data local is (re)bound in a branch: duplicate the continuation instead
             for k, v in e.items():
-                if k.startswith("self."):
+                if k.startswith("self.") or k.startswith("?"):
                     continue
                 if v[1] in ("aw", "nil", "unit"):
                     if k in env2 and env2[k][1] not in ("aw", "nil", "unit") and env2[k][0] != "VNone":
@@ -1210,9 +1336,9 @@ class NodeTr:
             c = self.cond(s.test, env, binds)
             t1 = t2 = None
             if c != "false":
-                t1, ty1 = self.mbody(list(s.body) + stmts[1:], self.narrow(s.test, env, True), fn)
+                t1, ty1 = self.mbody(list(s.body) + stmts[1:], self.with_fact(self.narrow(s.test, env, True), c, True), fn)
             if c != "true":
-                t2, ty2 = self.mbody(list(s.orelse) + stmts[1:], self.narrow(s.test, env, False), fn)
+                t2, ty2 = self.mbody(list(s.orelse) + stmts[1:], self.with_fact(self.narrow(s.test, env, False), c, False), fn)
             pre = " ".join("do %s <- %s ;;" % (b.var, b.term) for b in binds)
             if c == "true":
                 return "(%s %s)" % (pre, t1), ty1
